@@ -26,13 +26,27 @@ Fixpoint split_sep (s : list N) : option (list N * list N) :=
   | _ => None
   end.
 
+(* the text without a separator that ends it *)
+Definition strip_sep_end (r : list N) : list N :=
+  let n := (length r - 2)%nat in
+  if list_eqb (skipn n r) SEP then firstn n r else r.
+
 (* create_test_item_from(): context = up to the first separator after the marker,
-   name = from there up to the next separator (or the end of the string) *)
+   name = the rest without the separator that ends the symbol (so that a name containing the
+   separator is kept whole) *)
 Definition parse_spec (spec : list N) : list N * list N :=
   let body := skipn (length (PREFIX ++ SEP)) spec in
   match split_sep body with
-  | Some (ctx, rest) => (ctx, match split_sep rest with Some (name, _) => name | None => rest end)
+  | Some (ctx, rest) => (ctx, strip_sep_end rest)
   | None => (body, [])       (* not produced by the macros; the C code would dereference NULL *)
+  end.
+
+(* the parse before the repair: the name ended at the first separator inside it *)
+Definition parse_spec_old (spec : list N) : list N * list N :=
+  let body := skipn (length (PREFIX ++ SEP)) spec in
+  match split_sep body with
+  | Some (ctx, rest) => (ctx, match split_sep rest with Some (name, _) => name | None => rest end)
+  | None => (body, [])
   end.
 
 (* fnmatch(pattern, string, 0) for patterns made of literal characters and '*' *)
